@@ -718,7 +718,7 @@ Theorem px_join_refines declared on_a on_b jt l r x :
   same_set declared (cols l ++ filter (fun c => negb (mem c (cols l))) (cols r)) ->
   px_join declared on_a on_b jt l r = Some x -> refines x (sem_join false on_a on_b jt l r) /\ width_ok x.
 Proof.
-  intros Wl Wr Ha Hb Hlen Sd. unfold px_join.
+  intros Wl Wr Ha Hb Hlen Sd. unfold px_join, px_join_gen.
   destruct (Nat.eqb (nrows l) 0 && Nat.eqb (nrows r) 0) eqn:E0.
   - (* both sides empty *)
     rewrite sem_join_as_pairs.
